@@ -45,6 +45,7 @@ type writerOpts struct {
 	initLen     int
 	failAt      int // sink fails at this Write call (1-based), 0 never
 	failMode    int // what the failing Write reports (see doubles.Sink.FailMode)
+	failErr     int // index into doubles.SinkErrors
 	retain      bool
 	cotenant    bool
 }
@@ -74,7 +75,8 @@ func wOpsString(ops []wOp) string {
 // the region model. Returns the non-triviality flag.
 func runWriterHistory(cs *drv.Case, ops []wOp, o writerOpts) bool {
 	var w bufiox.Writer
-	sink := &doubles.Sink{FailAt: o.failAt, Err: doubles.ErrCustom, FailMode: o.failMode}
+	sinkErr := doubles.SinkErrors[o.failErr%len(doubles.SinkErrors)]
+	sink := &doubles.Sink{FailAt: o.failAt, Err: sinkErr, FailMode: o.failMode}
 	var target []byte
 	var init *san.Canary
 	var initCopy []byte
@@ -103,6 +105,17 @@ func runWriterHistory(cs *drv.Case, ops []wOp, o writerOpts) bool {
 	ct := &coTenant{r: cs.R}
 	defer ct.done()
 
+	type published struct{ b, snap []byte }
+	var pubs []published // slices a bytes writer published at earlier Flushes: they belong to the caller now
+	checkPubs := func(i int, when string) bool {
+		for k := range pubs {
+			if !bytes.Equal(pubs[k].b, pubs[k].snap) {
+				cs.Fail("bytes-writer-earlier-result-changed", nil, M{"op_index": i, "message": fmt.Sprintf("the slice published by Flush #%d changed %s (first diff at %d)", k+1, when, firstDiff(pubs[k].b, pubs[k].snap))})
+				return false
+			}
+		}
+		return true
+	}
 	var expectAll []byte      // everything that should have reached the sink so far (successful flushes)
 	var pending []interface{} // *region or []byte payload copies, in call order
 	var live []*region
@@ -155,7 +168,7 @@ func runWriterHistory(cs *drv.Case, ops []wOp, o writerOpts) bool {
 					fail("writer-error-not-sticky", i, "Malloc succeeded after a sink failure")
 					return true
 				}
-				if !errors.Is(err, doubles.ErrCustom) {
+				if !errors.Is(err, sinkErr) {
 					fail("writer-error-not-sticky", i, "Malloc after a sink failure returned %q, not the sink's error", errString(err))
 				}
 				continue
@@ -216,7 +229,7 @@ func runWriterHistory(cs *drv.Case, ops []wOp, o writerOpts) bool {
 					fail("writer-error-not-sticky", i, "WriteBinary succeeded after a sink failure")
 					return true
 				}
-				if !errors.Is(err, doubles.ErrCustom) {
+				if !errors.Is(err, sinkErr) {
 					fail("writer-error-not-sticky", i, "WriteBinary after a sink failure returned %q, not the sink's error", errString(err))
 				}
 				continue
@@ -262,7 +275,7 @@ func runWriterHistory(cs *drv.Case, ops []wOp, o writerOpts) bool {
 					fail("writer-error-not-sticky", i, "Flush returned nil after a sink failure")
 					return true
 				}
-				if !errors.Is(err, doubles.ErrCustom) {
+				if !errors.Is(err, sinkErr) {
 					fail("writer-error-not-sticky", i, "Flush after a sink failure returned %q, not the sink's error", errString(err))
 				}
 				continue
@@ -313,6 +326,9 @@ func runWriterHistory(cs *drv.Case, ops []wOp, o writerOpts) bool {
 					cs.C.Obs("bytes-writer re-flushes judged", 1)
 				}
 				flushedOnce = true
+				if len(target) > 0 {
+					pubs = append(pubs, published{target, append([]byte(nil), target...)})
+				}
 			} else {
 				sinkFails := o.failAt > 0 && sink.Calls >= o.failAt
 				if sinkFails {
@@ -322,7 +338,7 @@ func runWriterHistory(cs *drv.Case, ops []wOp, o writerOpts) bool {
 						fail("writer-sink-error-lost", i, "the sink failed but Flush returned nil")
 						return true
 					}
-					if !errors.Is(err, doubles.ErrCustom) {
+					if !errors.Is(err, sinkErr) {
 						fail("writer-sink-error-lost", i, "Flush returned %q, not the sink's error", errString(err))
 					}
 					failed = true
@@ -353,6 +369,9 @@ func runWriterHistory(cs *drv.Case, ops []wOp, o writerOpts) bool {
 					return true
 				}
 			}
+		}
+		if len(pubs) > 0 && !checkPubs(i, "after a later operation on the same writer") {
+			return true
 		}
 		if !failed {
 			if got := w.WrittenLen(); got != unflushed {
